@@ -17,12 +17,25 @@ import asyncio
 import importlib
 import itertools
 import os
+import signal
 
 from harness.env import stubimport, vloop
 
 stubimport.install()
 
 POLL = 1.0
+WATCHDOG_S = 10.0
+LIVELOCKS = {}          # backend -> number of executions that had to be cut (checks stop exploring a backend after 2)
+
+
+class Livelock(KeyboardInterrupt):
+    """Raised by the watchdog inside a task step that does not return (KeyboardInterrupt subclass: asyncio
+    re-raises it out of the loop instead of storing it in the task)."""
+
+
+def _on_alarm(signum, frame):
+    raise Livelock("task step did not return within %ss" % WATCHDOG_S)
+
 BACKENDS = ("memory", "sqlite", "sqlite1", "poll")
 _counter = itertools.count()
 
@@ -220,21 +233,29 @@ class System:
             raise ValueError(op)
 
     def _quiesce(self):
-        """Run the loop until quiescent; code that never becomes quiescent (a livelock) is recorded as an error
-        (judged by the observer, clause no_error) instead of hanging the check."""
+        """Run the loop until quiescent.  Code that never becomes quiescent (a livelock: endless rescheduling, or a
+        task step that never returns -- caught by a wall-clock watchdog) is recorded as an error (judged by the
+        observer, clause no_error) instead of hanging the check.  The watchdog never fires on terminating code."""
         if self.dead:
             return
+        old = signal.signal(signal.SIGALRM, _on_alarm)
+        signal.setitimer(signal.ITIMER_REAL, WATCHDOG_S)
         try:
             self.loop.quiesce(max_rounds=3000)
-        except RuntimeError as e:
+        except (RuntimeError, Livelock) as e:
+            signal.setitimer(signal.ITIMER_REAL, 0)
             self.dead = True
-            self.errors.append("livelock: %s" % e)
+            self.errors.append("livelock: %s" % (e or type(e).__name__))
+            LIVELOCKS[self.backend] = LIVELOCKS.get(self.backend, 0) + 1
             for t in asyncio.all_tasks(self.loop):
                 t.cancel()
             try:
                 self.loop.quiesce(max_rounds=3000)
             except RuntimeError:
                 pass
+        finally:
+            signal.setitimer(signal.ITIMER_REAL, 0)
+            signal.signal(signal.SIGALRM, old)
 
     def apply(self, cmds):
         """Issue the enabled commands of the batch, quiesce, project.  Returns (issued, post)."""
